@@ -670,6 +670,47 @@ def ref_obligations(pid, tier, seed):
     return {'obligations': obs, 'bounds': bounds}
 
 
+# ---------------------------------------------------------------------------
+# C17: allocation failure
+
+def oom_obligations(pid, tier, seed):
+    from harness import h_oom
+    obs = []
+    quick = tier == 'quick'
+    t = 150 if quick else 1500
+    sh, bounds = tree_shapes(tier, seed, quick_extra=(3, 1))
+    for kind, tag, tpl, hist, L, I in sh:
+        m = shapes.n_ranks(tpl)
+        is_set = kind == 'TreeSet'
+        for g in ('write', 'bulk', 'del', 'setop', 'state'):
+            if quick and (m > 4 or tag != 'core') and g in ('bulk', 'setop', 'state', 'del'):
+                continue
+            if quick and is_set and m > 3 and g != 'write':
+                continue
+            two = g in ('bulk', 'setop', 'state') and (not quick or m <= 2)
+            args = [('x', 'int')] + ([('y', 'int')] if two else []) + [('op', 'int'), ('n', 'int')]
+            pre = ['0 <= op < %d' % h_oom.GROUPS[g], '0 <= n <= %d' % h_oom.NMAX]
+            for prov in (('loaded', 'grown') if (tag == 'core' and hist and g == 'write' and (not quick or m <= 5)) else ('loaded',)):
+                P = dict(family='OO', kind=kind, tpl=tpl, L=L, I=I, group=g, prov=prov)
+                nk = m
+                if prov == 'grown':
+                    P['hist'] = hist
+                    nk = max(k for _, k in hist) + 1
+                obs.append(dict(id='%s/%s/%s%s/%s/%s%s' % (pid, kind, tag, '' if (L, I) == (2, 2) else '%d%d' % (L, I), sid(tpl), g,
+                                                            '' if prov == 'loaded' else '/grown'),
+                                mod='h_oom', fn='oom_step', nk=nk, args=args, pre=pre, params=P, timeout=t))
+    for kind in ('Bucket', 'Set'):
+        for n in (0, 1, 3, 4):
+            for g in ('write', 'bulk', 'setop', 'state'):
+                args = [('x', 'int')] + ([('y', 'int')] if (not quick or n <= 1) else []) + [('op', 'int'), ('n', 'int')]
+                pre = ['0 <= op < %d' % h_oom.GROUPS[g], '0 <= n <= %d' % h_oom.NMAX]
+                obs.append(dict(id='%s/%s/n%d/%s' % (pid, kind, n, g), mod='h_oom', fn='oom_step', nk=n, args=args, pre=pre,
+                                params=dict(family='OO', kind=kind, n=n, group=g), timeout=t))
+    bounds.update(per_condition_timeout_s=t, failing_allocation='index solver-chosen among the allocations the call makes on the path (counted by a '
+                  'dry run on a twin), capped at %d' % h_oom.NMAX)
+    return {'obligations': obs, 'bounds': bounds}
+
+
 COMMON_ASSUME = [
     'key objects are observed by the containers only through rich comparison, identity and None-ness '
     '(true for the object-key templates; native-key families are covered by their own obligations where stated)',
@@ -893,5 +934,23 @@ PROPS = {
                    'finiSetIteration, bucket_merge, bucket_getstate/_setstate, BTree_getstate/_setstate, deallocators'],
         assumptions=COMMON_ASSUME + ['memory bounds are observed only through crashes / reference-count drift here (no sanitizer build '
                                      'in the quick tier)'],
+    ),
+    'C17': dict(
+        families=['OO'],
+        hook=True,
+        gen=lambda tier, seed: oom_obligations('C17', tier, seed),
+        explanation='Built with the BTREES_VERIF hook. From every catalogue shape (loaded and grown; shapes about to split at leaf, '
+                    'interior and root level are in the stratified core) and from bare leaves, one allocating call with symbolic keys '
+                    '(insert/setdefault/update, multi-key update and in-place operators, delete, set algebra and operators, '
+                    '__setstate__ into fresh and used objects, conflict merge, copy construction) is first run on a twin to count '
+                    'the BTree_Malloc/BTree_Realloc calls it makes on this path; then the n-th of them (n solver-chosen, or none) is '
+                    'made to fail. Asserted: MemoryError reaches the caller iff an allocation failed; contents are the previous ones '
+                    'or the completed change (multi-key: nothing invented); checkers + walker accept; two further operations and a '
+                    'follow-up workload behave; the container is destroyed (a dangling or doubly freed block kills the interpreter, '
+                    'which the decision journal turns into a replayed violation).',
+        functions=['_OOBTree.so: BTree_Malloc, BTree_Realloc, Bucket_grow, bucket_split, BTree_grow, BTree_split, BTree_split_root, '
+                   '_bucket_setstate, _set_setstate, _BTree_setstate, bucket_merge, set_operation, copyRemaining, bucket_append'],
+        stubs=['allocation failure is injected only in BTree_Malloc/BTree_Realloc (hook); CPython-internal allocations never fail'],
+        assumptions=COMMON_ASSUME,
     ),
 }
